@@ -166,3 +166,27 @@ def feedback_streams(ck, specs, nblocks):
             o = out.get("f%d" % s, "")
             outs[s] = bytes.fromhex(o) if len(o) == 32 * (j + 1) else outs[s] + bytes(16)
     return [(ins[s], outs[s], rel[s]) for s in range(len(specs))]
+
+
+def parallel_purity(ck, exe, oplines, what, iters=400, group=4, env=None):
+    """The pure entry points used from several REAL threads of one process at the same time (driver op `par`): every op of a group
+    runs `iters` times in its own thread, all threads at once; each must give the spec's answer every time.  State shared between
+    calls (a static scratch block, a memoised schedule) shows only then.  oplines: list of 'aes ...' / 'mode ...' / 'hstr ...' lines."""
+    mdrv = ck.model_driver()
+    want = wv.run_lines([mdrv, "spec"], ["w%d %s" % (i, l) for i, l in enumerate(oplines)])
+    groups = [list(range(i, min(i + group, len(oplines)))) for i in range(0, len(oplines), group)]
+    lines = ["g%d par %d %s" % (gi, iters, ";".join(oplines[i].replace(" ", ",") for i in g)) for gi, g in enumerate(groups)]
+    got = wv.run_lines([exe], lines, shards=max(1, min(4, len(lines))), env=env or ck.env())
+    for gi, g in enumerate(groups):
+        parts = got.get("g%d" % gi, "").split(" ")
+        for j, i in enumerate(g):
+            ck.cov["evaluations"] += 1
+            p = parts[j] if j < len(parts) else "(no output):0"
+            first, _, diff = p.rpartition(":")
+            if first != want.get("w%d" % i) or diff != "0":
+                ck.violation("%s used from %d threads at once gives a wrong or varying answer" % (what, len(g)),
+                             {"class": None, "ops_run_concurrently": [oplines[k] for k in g], "iterations": iters, "failing_op": oplines[i], "first_result": first,
+                              "iterations_differing_from_first": diff, "spec": want.get("w%d" % i),
+                              "replay": "echo 'x par %d <ops joined by ; with , for spaces>' | harness/drv.cpp built against /repo (real threads: repeat if it does not show at once)" % iters})
+                return
+    ck.cov.setdefault("case_classes", {})["concurrent-use/" + what] = len(oplines)
